@@ -437,7 +437,8 @@ impl VarIntEncoder {
         
         // Write deltas using zigzag encoding
         for i in 1..values.len() {
-            let delta = values[i] - values[i-1];
+            // modular difference: exact after the decoder's wrapping_add
+            let delta = values[i].wrapping_sub(values[i-1]);
             let delta_bytes = self.encode_zigzag_i64(delta)?;
             result.extend_from_slice(&delta_bytes);
         }
@@ -507,7 +508,7 @@ impl VarIntEncoder {
         // Read deltas
         for _ in 1..count {
             let (delta, delta_bytes) = self.decode_zigzag_i64(&data[offset..])?;
-            let next_value = result[result.len() - 1] + delta;
+            let next_value = result[result.len() - 1].wrapping_add(delta);
             result.push(next_value);
             offset += delta_bytes;
         }
